@@ -26,7 +26,8 @@ if os.environ.get("VERIF_C07_MODEL") == "deviant":  # experimentation only
 
 ALL_SYMS = list(range(1, 22))
 BOOK_SYMS_QUICK = [1, 5, 12, 13, 14, 15]          # two atoms of different residues, TER, END, MODEL, ENDMDL
-BOOK_SYMS_THOROUGH = [1, 4, 5, 8, 12, 13, 14, 15]  # + insertion-code residue, water
+BOOK_SYMS_THOROUGH = [1, 4, 5, 8, 12, 13, 14, 15, 21]  # + insertion-code residue, water, MODEL without serial
+CORE_SYMS = [1, 2, 3, 4, 5, 7, 8, 12, 13, 14, 15, 19, 20, 21]   # thorough: one line deeper than the full alphabet
 
 
 def cfg_text(maxlen, consts, emit, inv, spec="Spec", alphabet="MCAlphabet", dw="{FALSE, TRUE}", symset=None):
@@ -353,8 +354,9 @@ def explore(ctx, rng, symset, maxlen, label):
 # ------------------------------------------------------------------ main
 def run(ctx):
     rng = random.Random(ctx.seed)
-    maxlen = 4 if ctx.quick else 5
-    ctx.rule = ("TLC enumerates every file of <= MaxLen lines over the 21-symbol alphabet of MC_PdbReader x "
+    maxlen = 4
+    ctx.rule = ("TLC enumerates every file of <= 4 lines over the 21-symbol alphabet of MC_PdbReader (thorough: also <= 5 lines over 14 of "
+                "the symbols), and of <= 6 lines over the record-bookkeeping sub-alphabet (6 / 9 symbols), x "
                 "{drop-water on, off}; each is rendered to PDB text and read by the real get_molecule/"
                 "drop_water/setup_molecule.  Non-trivial = well-formed file with at least one coordinate line "
                 "and at least one non-coordinate line or duplicate/alternate/insertion/blank-chain atom; "
@@ -368,6 +370,8 @@ def run(ctx):
     ctx.trusted += ["vlib/checks/c07.py render/observe/abstract_line", "TLC 1.8", "Json community module"]
 
     explore(ctx, rng, ALL_SYMS, maxlen, "full alphabet")
+    if not ctx.quick:
+        explore(ctx, rng, CORE_SYMS, 5, "core alphabet (14 symbols)")
     # the record-bookkeeping sub-alphabet (atoms of two residues, TER, END, MODEL, ENDMDL) two lines deeper
     explore(ctx, rng, BOOK_SYMS_QUICK if ctx.quick else BOOK_SYMS_THOROUGH, 6, "bookkeeping sub-alphabet")
 
